@@ -6,6 +6,8 @@
 // compared with the repository's interpreter on exhaustively enumerated program alphabets.
 //
 // Build: /verif/src/emu/rv64/build.sh <profile> <outdir>     Run: <outdir>/c20 [--tier quick|thorough] ...
+#include <deque>
+#include <memory>
 #include "common/vf.hpp"
 #include "emu/rv64/rv64_engine.hpp"
 #include "configuration.h"
@@ -114,6 +116,9 @@ static const uint64_t Mult[4] = { 1000003ull, 7368787ull, 15485867ull, 32452843u
 
 struct CaseSpec { Case c; std::string family; uint64_t index; bool sampling = false; };
 
+// dataset offsets (in items) at the immediate-width boundaries a translator can split at: 8 bits, 12 bits (lui/addi, add #imm12), 16 bits (movz/movk), 20 bits
+static const uint64_t DSO[] = { 1, 0x7F, 0x80, 0xFF, 0x100, 0x7FF, 0x800, 0x801, 0xFFF, 0x1000, 0x1001, 0x17FF, 0x1800, 0x1801, 0x7FFF, 0x8000, 0xFFFF, 0x10000, 0x10001, 0x3F800, 0x7F7FF, 0x7F800, 0x7FFFE };
+static const int NDSO = (int)(sizeof DSO / sizeof DSO[0]);
 struct Families {
 	Tier t; std::vector<WordSpace> spaces;
 	struct Fam { std::string name; uint64_t count; };
@@ -153,6 +158,8 @@ struct Families {
 		fams.push_back({ "c-branch", branchProgs.size() * 2 * 2 * 4 });
 		fams.push_back({ "c-rcp", rcpCounts.size() * 2 * 2 * 4 });
 		fams.push_back({ "c-writer", (uint64_t)8 * 3 * 15 * 2 * 2 });
+		fams.push_back({ "c-dsoff", (uint64_t)NDSO * 2 * 2 * 2 });
+		fams.push_back({ "c-entry", A * 2 * 2 * 2 * 2 });
 		fams.push_back({ "d-random", sc((uint64_t)(t.thorough ? 1024 : 320) * 4) });
 	}
 	uint64_t total() const { uint64_t n = 0; for (auto& f : fams) n += f.count; return n; }
@@ -225,6 +232,25 @@ struct Families {
 			for (unsigned s = 0; s < S && (int)s < k; ++s) c.setWord(s, W(T_IMUL_RCP, s & 7, 0, 0, 3 + 2 * s + ((s % 5 == 0) ? 0x80000000u : 0), (int)(s & 1)));
 			for (unsigned s = (unsigned)std::min<int>(k, (int)S); s < S; s += 16) c.setWord(s, W(T_IXOR_R, s / 16 & 7, (s / 16 + 1) & 7, 0, 0));
 		}
+		else if (fn == "c-entry") {
+			// entry at a branch target: r := 0; r ^= 0xFF << b (last writer of r); A (an alphabet word that does not write r); clobbers; CBRANCH r taken once per iteration:
+			// A's code is entered from the branch without passing through the writer (DESIGN.md 8.13)
+			c.light = i % 2; i /= 2; c.v2 = i % 2; i /= 2; unsigned cond = (i % 2) ? 15 : 0; i /= 2; unsigned r = (i % 2) ? 6 : 1; i /= 2;
+			uint64_t wa = t.alpha[i]; unsigned op = (unsigned)(wa & 0xFF), d = (unsigned)((wa >> 8) & 0xFF), sr = (unsigned)((wa >> 16) & 0xFF);
+			bool isBranch = op >= firstOpcode[T_CBRANCH] && op < firstOpcode[T_CBRANCH] + Freq[T_CBRANCH], isSwap = op >= firstOpcode[T_ISWAP_R] && op < firstOpcode[T_ISWAP_R] + Freq[T_ISWAP_R];
+			if (isBranch) wa = W(T_ISTORE, (r + 1) & 7, (r + 2) & 7, 0x01, 0x40);
+			else { if ((d & 7) == r) d = (d & 0xF8) | ((r + 1) & 7); if (isSwap && (sr & 7) == r) sr = (r + 2) & 7; wa = (wa & ~0xFFFF00ull) | ((uint64_t)d << 8) | ((uint64_t)sr << 16); }
+			ctx16(c, (unsigned)((r + cond + i) & 15), e); fill(c, e);
+			c.setWord(0, W(T_IMUL_R, r, r, 0, 0)); c.setWord(1, W(T_IXOR_R, r, r, 0, 0xFFu << (cond + 8))); c.setWord(2, wa);
+			c.setWord(3, W(T_IMULH_R, (r + 2) & 7, (r + 3) & 7, 0, 0)); c.setWord(4, W(T_ISMULH_M, (r + 3) & 7, (r + 5) & 7, 0x01, 0x100)); c.setWord(5, W(T_ISTORE, (r + 1) & 7, (r + 2) & 7, 0x01, 0x1238));
+			c.setWord(6, W(T_CBRANCH, r, 0, cond << 4, 0)); c.setWord(7, W(T_IADD_RS, (r + 1) & 7, (r + 3) & 7, 0, 0));
+		}
+		else if (fn == "c-dsoff") {
+			// the dataset offset of the configuration block at every boundary value (seeded change agent7_C20: the lui/addi split of datasetOffset/64 wrong for low 12 bits == 0x800)
+			c.light = i % 2; i /= 2; c.v2 = i % 2; i /= 2; unsigned ctx = (unsigned)(i % 2); i /= 2;
+			ctx16(c, ctx | 4, e); e[13] = DSO[i]; fill(c, e);
+			c.setWord(0, W(T_IADD_M, 0, 1, 0x01, 0x10)); c.setWord(1, W(T_IXOR_R, 2, 3, 0, 0)); c.setWord(2, W(T_ISTORE, 4, 5, 0x01, 0x40)); c.setWord(3, W(T_IMUL_R, 6, 7, 0, 0));
+		}
 		else if (fn == "c-writer") {
 			// last-writer bookkeeping with the branch FORCED taken (added after seeded change agent3_C19, DESIGN.md 8.9):
 			// r := 0; r ^= 0xFF << b; X (non-idempotent, reads r); N (touches r but must not count as a modification of it); Y;
@@ -251,6 +277,9 @@ struct Families {
 			memcpy(c.prog, buf, ProgramBytes);
 			c.spad = (int)(i & 1); c.rmode = (int)((i >> 1) & 3);
 		}
+		// the part of the 384-word buffer a v1 program must ignore is not left as no-ops: it mirrors the program's own first words (a translator that
+		// looks past the end of the program must not get away with it; in a real hash that part holds generator output)
+		if (!c.v2 && !cs.sampling) for (unsigned s = RANDOMX_PROGRAM_SIZE_V1; s < RANDOMX_PROGRAM_MAX_SIZE; ++s) c.setWord(s, c.word(s - RANDOMX_PROGRAM_SIZE_V1));
 		return cs;
 	}
 };
@@ -419,8 +448,9 @@ static int modeReplay(const vf::Args& a) {
 	}
 	Case c = caseFromJson(*rp);
 	if ((int)rp->at("iterations").num() != RANDOMX_PROGRAM_ITERATIONS) { fprintf(stderr, "c20: replay was recorded with %d iterations, this executable has %d\n", (int)rp->at("iterations").num(), RANDOMX_PROGRAM_ITERATIONS); return 2; }
-	if (!env.init(!c.light, false) || !E.init(&env, err)) { fprintf(stderr, "c20: setup failed %s %s\n", env.error.c_str(), err.c_str()); return 2; }
+	if (!env.init(!c.light || rp->has("history"), false) || !E.init(&env, err)) { fprintf(stderr, "c20: setup failed %s %s\n", env.error.c_str(), err.c_str()); return 2; }
 	E.m.traceCsr = a.opt.count("trace-csr") != 0;
+	if (rp->has("history")) { for (auto& hj : rp->at("history").a) { Case h = caseFromJson(hj); if (h.light != c.light) { Env* ev = &env; (void)ev; } E.run(h); } printf("replay: %zu earlier programs translated by the same compiler objects first\n", rp->at("history").a.size()); }
 	Outcome o = E.run(c);
 	printf("replay: v%d %s, scratchpad image %d, entry rounding %d: %s%s%s\n", c.v2 ? 2 : 1, c.light ? "light" : "full", c.spad, c.rmode, o.agree ? "AGREE" : "DISAGREE ", o.kind.c_str(), o.agree ? "" : (": " + o.detail).c_str());
 	for (unsigned s = 0; s < c.size(); ++s) if (c.word(s) != NoOp()) { static int shown = 0; if (shown++ < 8) printf("  slot %u: %s\n", s, wordText(c.word(s)).c_str()); }
@@ -457,14 +487,16 @@ int main(int argc, char** argv) {
 	if (a.opt.count("list")) { for (auto& f : F.fams) printf("family %-9s %llu programs\n", f.name.c_str(), (unsigned long long)f.count); printf("dataset-init cases %zu\n", dsCases.size()); return 0; }
 
 	vf::Result R = vf::run_shards(a, NS, [&](int shard) {
-		vf::Result r; Engine E; std::string err;
+		vf::Result r; Engine E; std::string err; std::deque<Case> hist; std::deque<std::string> histjs; std::string curjs;   // hist: the last programs translated by E's compiler objects, oldest first (histjs: the same as replay JSON)
 		if (!E.init(&env, err)) { fprintf(stderr, "c20: %s\n", err.c_str()); _exit(2); }
 		Analyzer An(E, r);
 		uint64_t done = 0;
 		for (uint64_t gi = (uint64_t)shard; gi < total; gi += NS) {
 			if ((done & 63) == 0 && a.expired()) { r.incomplete = true; break; }
 			CaseSpec cs = F.make(gi);
-			if ((done & 255) == 0) vf::set_current(caseJson(cs.c).dump());
+			// what the parent reports if this process dies inside the library's compiler or the emitted code (a crash of the translator is a verdict): the case and the
+			// programs its compiler objects translated before it
+			{ std::string js = caseJson(cs.c).dump(); std::string cur = js.substr(0, js.size() - 1) + ",\"finding_key\":\"rv64:crash\",\"history\":["; bool f1 = true; for (auto& h : histjs) { if (!f1) cur += ","; cur += h; f1 = false; } cur += "]}"; vf::set_current(cur); curjs.swap(js); }
 			Outcome o = E.run(cs.c);
 			++done;
 			r.n["programs"]++; r.n["programs_" + cs.family]++;
@@ -472,8 +504,21 @@ int main(int argc, char** argv) {
 			if (cs.sampling) r.n["programs_sampled_random"]++;
 			r.n["guest_instructions"] += o.guestInsns;
 			r.mx["guest_instructions_per_program"] = std::max<uint64_t>(r.mx["guest_instructions_per_program"], o.guestInsns);
-			if (!o.agree) An.handle(cs, o);
-			else if (gi % 50021 == 0) { vf::Json s = vf::Json::obj(); s.set("family", cs.family).set("index", (unsigned long long)cs.index).set("version", cs.c.v2 ? 2 : 1).set("mode", cs.c.light ? "light" : "full").set("guest_instructions", (unsigned long long)o.guestInsns).set("first_word", wordText(cs.c.word(0))).set("result", "agree"); r.sample(s, 2); }
+			if (!o.agree) {
+				// does the disagreement need what EARLIER programs left in the compiler object? A fresh compiler decides; if it agrees, the case is reported with the
+				// programs that preceded it on this compiler and the replay runs them in order (DESIGN.md 8.13)
+				std::unique_ptr<Engine> E2(new Engine); std::string e2; bool hd = false;   // on the heap: an Engine holds the emulator's machine state
+				if (E2->init(&env, e2)) { Outcome of = E2->run(cs.c); hd = of.agree; }
+				E2.reset();
+				if (hd) {
+					if (An.reportedKeys.insert("rv64:history").second) { vf::Violation v; v.key = "rv64:history"; v.what = "RV64 JIT != interpreter ONLY after the programs compiled before on the same compiler object (a fresh compiler agrees), family " + cs.family + " #" + std::to_string(cs.index) + ": " + o.kind + ": " + o.detail;
+						v.replay = caseJson(cs.c); vf::Json h = vf::Json::arr(); for (auto& q : hist) h.push(caseJson(q)); v.replay.set("history", h); r.viol.push_back(v); }
+				}
+				else An.handle(cs, o);
+				E.resetJit(); hist.clear(); histjs.clear();   // the analysis ran other programs on this compiler: continue with a new one so that `hist` stays its complete history
+			}
+			else { hist.push_back(cs.c); histjs.push_back(curjs); if (hist.size() > 8) { hist.pop_front(); histjs.pop_front(); } }
+			if (o.agree && gi % 50021 == 0) { vf::Json s = vf::Json::obj(); s.set("family", cs.family).set("index", (unsigned long long)cs.index).set("version", cs.c.v2 ? 2 : 1).set("mode", cs.c.light ? "light" : "full").set("guest_instructions", (unsigned long long)o.guestInsns).set("first_word", wordText(cs.c.word(0))).set("result", "agree"); r.sample(s, 2); }
 		}
 		// dataset items
 		for (size_t k = (size_t)shard; k < dsCases.size(); k += NS) {
@@ -494,7 +539,7 @@ int main(int argc, char** argv) {
 		r.n["misaligned_guest_accesses"] += E.m.misaligned;
 		for (int f = 0; f < rv64emu::F_COUNT; ++f) if (E.m.formCount[f]) r.tags.insert(std::string("executed:") + rv64emu::formName[f]);
 		return r;
-	});
+	}, true, 7200);
 
 	// one violation per key
 	{ std::set<std::string> seen; std::vector<vf::Violation> u; for (auto& v : R.viol) if (seen.insert(v.key).second) u.push_back(v); R.viol = u; }
